@@ -2,7 +2,8 @@
    Property theorems only; each is closed by [exact] of a lemma proved in
    Proofs/C17_*.v and followed by Print Assumptions. *)
 From Coq Require Import ZArith List Bool.
-From Verif Require Import Model.C17 Proofs.C17_key Proofs.C17_memo Proofs.C17_other.
+From Verif Require Import Model.C17 Proofs.C17_key Proofs.C17_memo Proofs.C17_other
+  Proofs.C17_obj2bytes.
 Import ListNotations.
 Open Scope Z_scope.
 
@@ -207,3 +208,54 @@ Theorem C17_object_cache_alias_refuted :
   exists data ops, map oobs (snd (orun data false true o_init ops)) <> map (ospec data) ops.
 Proof. exact obj_alias_refuted. Qed.
 Print Assumptions C17_object_cache_alias_refuted.
+
+(* --- util.obj2bytes / hashobj and what is keyed on it ------------------------ *)
+
+(* obj2bytes joins sequences without boundaries, drops dtype and shape of
+   arrays and maps None to "none": not injective in general ... *)
+Theorem C17_obj2bytes_injective_refuted :
+  exists o o', o <> o' /\ obj2bytes o = obj2bytes o'.
+Proof. exact obj2bytes_not_injective. Qed.
+Print Assumptions C17_obj2bytes_injective_refuted.
+
+(* ... but injective on values of one layout (same nesting, kinds, dtypes,
+   shapes and byte lengths of the leaves): the shapes dclab feeds it for
+   ancillary-feature, hierarchy-parent and polygon-filter hashes. *)
+Theorem C17_obj2bytes_injective_partial :
+  forall o o' : pobj, layout o = layout o' -> obj2bytes o = obj2bytes o' -> o = o'.
+Proof. exact obj2bytes_inj_same_layout. Qed.
+Print Assumptions C17_obj2bytes_injective_partial.
+
+(* RTDCBase._ancillaries (one (hash, data) entry per feature = the memo table
+   at capacity 1): for every history of requests whose hashed items keep one
+   layout, the cached feature equals a fresh computation. *)
+Theorem C17_ancillary_history_fresh :
+  forall (D V E : Type) (md5 : bytes -> D) (deqb : D -> D -> bool),
+    (forall x y : D, deqb x y = true <-> x = y) ->
+    forall L : lay,
+      (forall i i', anc_dom L i -> anc_dom L i' ->
+                    md5 (anc_key i) = md5 (anc_key i') -> anc_key i = anc_key i') ->
+      forall (F : list pobj -> V + E) (ops : list (mop (list pobj) V)),
+        Forall (op_dom (list pobj) V (anc_dom L)) ops ->
+        map (obs V E) (snd (mrun (list pobj) D V E (fun i => md5 (anc_key i)) deqb F 1 true
+                                 (m_init D V) ops))
+        = map (fun o => Some (spec_op (list pobj) V E F o)) ops.
+Proof. exact ancillary_history_fresh. Qed.
+Print Assumptions C17_ancillary_history_fresh.
+
+(* The unrepaired LazyContourList.identifier (bytes of the first mask only)
+   breaks it: contour-derived features are stale after the masks change. *)
+Theorem C17_contour_identifier_refuted :
+  exists ops : list (mop (list bytes) bytes),
+    map (obs bytes Z) (snd (mrun (list bytes) bytes bytes Z lcl_ident_old beqb
+                                 (fun m => inl (concat m)) 1 true (m_init bytes bytes) ops))
+    <> map (fun o => Some (spec_op (list bytes) bytes Z (fun m => inl (concat m)) o)) ops.
+Proof. exact contour_identifier_refuted. Qed.
+Print Assumptions C17_contour_identifier_refuted.
+
+(* --- _ufunc_attrs (min/max/mean cached on the feature object) ---------------- *)
+Theorem C17_ufunc_cache_history_fresh :
+  forall (D W : Type) (ufunc : Z -> D -> W) (d : D) (ops : list (uop D)),
+    urun D W ufunc {| u_parent := d; u_obj := None |} ops = uspec D W ufunc d None ops.
+Proof. exact ufunc_history_fresh. Qed.
+Print Assumptions C17_ufunc_cache_history_fresh.
